@@ -2,13 +2,13 @@
 # usage: notes/build/merge_branch.sh Cxx   -- merge builder branch b-Cxx into main, resolving the recurring conflicts
 set -e
 cd /verif
-b=$1
-git merge --no-commit b-$b >/dev/null 2>&1 || true
+b=$1; br=${2:-b-$1}
+git merge --no-commit $br >/dev/null 2>&1 || true
 python3 - <<'PY'
 import re, json, os, subprocess
 p='/verif/harness/common.py'
 s=open(p).read()
-s=re.sub(r"<<<<<<< HEAD\n(.*?)=======\n.*?>>>>>>> b-C\d+\n", r"\1", s, flags=re.S)
+s=re.sub(r"<<<<<<< HEAD\n(.*?)=======\n.*?>>>>>>> [bs]-C\d+\n", r"\1", s, flags=re.S)
 s=s.replace("NCPU = int(os.environ.get('VERIF_NCPU', '3'))\n", "")
 if "NCPU = int(os.environ.get('VERIF_NCPU', '0'))" not in s:
     raise SystemExit('common.py lost its NCPU line')
@@ -27,5 +27,5 @@ PY
 git rm -q --cached coq/.nra.cache coq/.lia.cache coq/.nia.cache 2>/dev/null || true
 git add -A
 if grep -rln "^<<<<<<< " --include=*.py --include=*.v --include=*.json --include=*.jsonl harness coq known_findings.jsonl 2>/dev/null; then echo "UNRESOLVED CONFLICTS"; exit 1; fi
-git commit -qm "Merge b-$b"
+git commit -qm "Merge $br"
 git log --oneline | head -1
